@@ -59,6 +59,7 @@ const (
 	HookNone Hook = iota
 	HookIdentity
 	HookUnwrap // a struct with the single exported field "Wrapped" is replaced by that field's value
+	HookConst  // every step's result is replaced by the constant string "K"
 )
 
 // Env is the evaluation context.
@@ -105,6 +106,9 @@ const (
 
 // hook applies the value-transformation hook to a node.
 func (e *Env) hook(n *uni.Node) *uni.Node {
+	if e.Hook == HookConst {
+		return uni.Str("K")
+	}
 	if e.Hook != HookUnwrap || n == nil {
 		return n
 	}
